@@ -55,6 +55,22 @@ const c11BaseDup = `<MPD id="m2" type="dynamic" publishTime="2024-01-01T00:00:10
 </Period>
 </MPD>`
 
+// third base: several positional siblings (same tag, neither id nor schemeIdUri)
+const c11BaseSiblings = `<MPD id="m3" type="dynamic" publishTime="2024-01-01T00:00:10Z">
+<BaseURL>a/</BaseURL>
+<BaseURL>b/</BaseURL>
+<BaseURL>c/</BaseURL>
+<PatchLocation ttl="60">/patch/z.mpp</PatchLocation>
+<Period id="P0" start="PT0S">
+ <BaseURL>p1/</BaseURL>
+ <BaseURL>p2/</BaseURL>
+ <AdaptationSet id="1" contentType="video">
+  <SegmentTemplate media="$Time$.m4s" timescale="1000"><SegmentTimeline><S t="0" d="2000"></S><S d="1000"></S><S d="2000"></S></SegmentTimeline></SegmentTemplate>
+  <Representation id="V1" bandwidth="1"><Label>one</Label><Label>two</Label></Representation>
+ </AdaptationSet>
+</Period>
+</MPD>`
+
 type c11Edit struct {
 	desc  string
 	apply func(root *vref.XNode) bool
@@ -202,12 +218,12 @@ func TestVerifC11D(t *testing.T) {
 	rep := vh.NewReport("C11")
 	defer rep.Write()
 	quick := vh.Quick()
-	for bi, baseStr := range []string{c11Base, c11BaseDup} {
+	for bi, baseStr := range []string{c11Base, c11BaseDup, c11BaseSiblings} {
 		base, err := vref.ParseXML([]byte(baseStr))
 		if err != nil {
 			t.Fatalf("base %d: %v", bi, err)
 		}
-		tag := []string{"plain", "dup-scheme"}[bi]
+		tag := []string{"plain", "dup-scheme", "siblings"}[bi]
 		edits := c11Edits(base)
 		rep.Extra[fmt.Sprintf("single_edits_%s", tag)] = len(edits)
 		check := func(oldT, newT *vref.XNode, desc string) {
